@@ -73,6 +73,8 @@ def aval(e):
         return aval(e[2]) * float(e[1])
     if t == "div":
         return aval(e[1]) / float(e[2])
+    if t == "rdiv":
+        return float(e[1]) / aval(e[2])
     raise ValueError(e)
 
 
@@ -100,6 +102,8 @@ def asrc(e):
         return f"({num_src(e[1])} * {asrc(e[2])})"
     if t == "div":
         return f"({asrc(e[1])} / {num_src(e[2])})"
+    if t == "rdiv":
+        return f"({num_src(e[1])} / {asrc(e[2])})"
     raise ValueError(e)
 
 
@@ -704,7 +708,13 @@ def strategies():
 
     @st.composite
     def leaf(draw):
-        c = draw(st.integers(0, 9))
+        c = draw(st.integers(0, 11))
+        if c == 10:
+            # whole and half numbers of half-turns written as float literals (CRz has period 4 pi, not 2 pi)
+            return ["lit", draw(st.sampled_from([2.0, -2.0, 6.0, -6.0, 4.0, -4.0, 1.0, -1.0, 3.0, 0.0, 8.0, 10.0]))]
+        if c == 11:
+            # number / angle: the operators act on the half-turn count
+            return ["rdiv", draw(st.sampled_from([0.5, 1, 2, 3, -1.5, 0.25])), draw(st.sampled_from([["pi"], ["mul", ["pi"], 4], ["lit", 0.5], ["frac", 1, 4], ["lit", -2.0]]))]
         if c <= 2:
             k, d = draw(dyadic)
             if draw(st.booleans()) and d > 1:
@@ -961,7 +971,7 @@ SPEC = harness.Spec(
         "reset reports no outcome: the oracle branches on both outcomes and the reported state must equal one branch; discard = the qubit is traced out",
         "when the listed qubits are entangled with discarded ones (mixed state) the observed reduced density matrix is taken from the simulator's full statevector (PartialVector._inner.get_density_matrix): selene's state_distribution() uses np.linalg.eig whose eigenvectors of a degenerate eigenvalue are not orthogonal, so sum p|v><v| of the public distribution does not reproduce the state; pure states go through the public state_distribution() API",
         "circuits of one program run one after the other (one function per circuit, called from a run-time loop); emulator seed drawn per program",
-        "float / angle (angle.__rtruediv__) is not generated: no documented meaning",
+        "number / angle (angle.__rtruediv__) is read like the other operators, on the half-turn count: angle(number / halfturns)",
         "std.qsystem.measure / measure_and_reset are not executable on the installed selene (DESIGN 1.4) and are left out",
     ],
     shards={"quick": 8, "thorough": 16},
